@@ -501,7 +501,7 @@ func stripIndexOnly(tr []string, dropControl bool) []string {
 			var m map[string]string
 			if reJSONString(l[j+2:], &m) == nil {
 				for k := range m {
-					if strings.HasPrefix(k, "index:") || strings.HasPrefix(k, "qord:") || (dropControl && k == "control") {
+					if strings.HasPrefix(k, "index:") || strings.HasPrefix(k, "qord:") || strings.HasPrefix(k, "qseq:") || (dropControl && k == "control") {
 						delete(m, k)
 					}
 				}
